@@ -24,7 +24,7 @@ fn viol(t: &mut Tally, monitor: &str, sig: &str, detail: String, extra: J) {
 
 const STYLES: u8 = 5;
 
-fn secret_of_len(r: &mut Rng, len: usize, style: u8) -> String {
+pub fn secret_of_len(r: &mut Rng, len: usize, style: u8) -> String {
     match style {
         0 => "A".repeat(len),
         1 => r.string_from(B64ISH, len),
